@@ -485,7 +485,7 @@ class EIG(BaseRoutine):
 
         if system.PFlow.converged is False:
             logger.warning('Power flow not solved. Eig analysis will not continue.')
-            status = False
+            return False
 
         if system.TDS.initialized is False:
             system.TDS.init()
